@@ -55,7 +55,7 @@ def famLeafSem (Fam : Family) (G : MG Name) (pops : List Name) (σ' : Val) (h : 
       · subst hne
         simp only [List.map_nil, Scm.prAtoms]
         exact (F_nil hM h.wf h.rank _ σ).symm
-      · exact prAtoms_world hM h.wf σ σ' w hw vs hne (fun v hv' => ⟨(hv v (hvs v hv')).1, (hv v (hvs v hv')).2.1⟩)
+      · exact prAtoms_world hM h.wf σ σ' w hw vs hne (fun v hv' => ⟨(hv v (hvs v hv')).1, by rw [(hv v (hvs v hv')).2.1]; simp⟩)
     unfold envLeaf
     simp only [Option.map_some]
     rw [key (c ++ p) (fun v hv => hv), key p (fun v hv => List.mem_append_right _ hv)]
